@@ -11,7 +11,19 @@ def stateless_cfg(rnd):
     c = gen.pipeline_cfg(rnd, want_limit=False, allow_group=False, allow_sort=False, allow_unique=False)
     c['skip'] = 0; c['take'] = None
     if rnd.random() < 0.3: c['json_opts'] = (rnd.choice(['oneline', 'consise', 'pretty']), rnd.random() < 0.5)
+    if rnd.random() < 0.35:
+        # split with selections that look at the enclosing record
+        c['split'] = '.arr'; c['select'] = rnd.sample(['^.k=pk', '^.a=pa', '.=item', '(size ^.arr)=n', '^=parent'], rnd.randint(1, 3))
+    if rnd.random() < 0.25:
+        # the regular-expression cache is the only shared mutable state
+        c['cache'] = rnd.choice([1, 2, 64]); c['select'] = c['select'] + [rnd.choice(['(match .s .p)=m', '(extract_regex_group .s .p 0)=g'])]
     return c
+
+# patterns incl. strings that collide under weak string hashes (h*31+c)
+PATS = ['Aa', 'BB', 'AaAa', 'BBBB', 'AaBB', 'BBAa', 'a.', '^x', 'b+', 'C#', 'Bb', 'x$', '[', 'B', 'A']
+SUBJ = ['xBBx', 'xAax', 'AaBB', 'abc', 'xbz', '', 'C#Bb']
+def regex_record(rnd):
+    r = gen.record(rnd); r['s'] = rnd.choice(SUBJ); r['p'] = rnd.choice(PATS); return r
 
 def run(ctx):
     rnd = ctx['rnd']; n = 250 if ctx['tier'] == 'quick' else 10000
@@ -19,6 +31,12 @@ def run(ctx):
     for i in range(n):
         cfg = stateless_cfg(rnd)
         A = gen.records(rnd, 20); B = gen.records(rnd, 20)
+        if cfg.get('cache'):
+            A = [regex_record(rnd) for _ in range(rnd.randint(0, 12))]; B = [regex_record(rnd) for _ in range(rnd.randint(0, 12))]
+        elif cfg['split'] == '.arr' and any('^' in x for x in cfg['select']):
+            # equal elements under different parents, next to each other
+            A = [{'k': rnd.choice(['x', 'y', 1]), 'a': rnd.randint(0, 3), 'arr': [rnd.choice([5, 'e', {'a': 1}]) for _ in range(rnd.randint(0, 3))]} for _ in range(rnd.randint(0, 8))]
+            B = [{'k': rnd.choice(['x', 'z', 2]), 'a': rnd.randint(0, 3), 'arr': [rnd.choice([5, 'e', {'a': 1}]) for _ in range(rnd.randint(0, 3))]} for _ in range(rnd.randint(0, 8))]
         perm = list(A + B); rnd.shuffle(perm)
         da, db, dab = gen.stream(A), gen.stream(B), gen.stream(A + B)
         cases += [mkcase('A%d' % i, cfg, da), mkcase('B%d' % i, cfg, db), mkcase('C%d' % i, cfg, dab)]
@@ -28,7 +46,10 @@ def run(ctx):
         # duplication
         dup = [x for v in A for x in (v, v)]
         cases.append(mkcase('E%d' % i, cfg, gen.stream(dup)))
-    impl, model, mism = common.correspond(cases)
+    # the regex engine is not modelled: cases that use it run on the implementation only
+    modelled = [c for c in cases if not c['cfg'].get('cache')]
+    impl, model, mism = common.correspond(modelled)
+    impl.update(lib.run_harness([c for c in cases if c['cfg'].get('cache')]))
     # per-record outputs for the permutation / duplication relations
     singles = {}
     sc = []
@@ -71,7 +92,7 @@ def run(ctx):
     cov = {'evaluations': len(cases) + len(sc), 'distinct_nontrivial': common.nontrivial_count(cases, impl),
            'rule': 'pairs (A,B) of 0..20 records x stateless pipelines (set/split/filter/select) x styles; runs on A, B, A.B, a permutation, a duplication and every record alone',
            'samples': [common.describe(c) for c in cases[:2]],
-           'traces_validated_against_impl': len(cases) - len(mism), 'model_mismatches': len(mism), 'direct_relations_checked': checked}
+           'traces_validated_against_impl': len(modelled) - len(mism), 'model_mismatches': len(mism), 'direct_relations_checked': checked}
     broken = ['correspondence: model and implementation differ on %d cases, e.g. %s' % (len(mism), json.dumps(mism[0])[:1500])] if mism else []
     return {'coverage': cov, 'violations': violations, 'broken': broken}
 
